@@ -48,7 +48,13 @@ def gen_history(r, proj: dict, n_ops: int) -> list:
         path = paths[pid]
         tag = re.sub(r"[^a-z]", "", path.split(".")[0])[-3:] or "x"
         items = oc.gen_items(r, path, tag)
-        if base is not None and r.random() < 0.5:
+        flip = [k for k, x in enumerate(proj["contents"][base][1]) if x[0] in ("B", "BI", "BN")] if base is not None and oc.lang_of(path) == "py" else []
+        if flip and r.random() < 0.3:
+            # the same file with one inline DRY suppression comment added or removed (nothing else changes)
+            items = [list(x) for x in proj["contents"][base][1]]
+            k = r.choice(flip)
+            items[k][0] = "B" if items[k][0] != "B" else r.choice(["BI", "BN"])
+        elif base is not None and r.random() < 0.5:
             # a rewrite that keeps the file's share of the cross-file plants (so that groups with >= 3 participants survive edits)
             items += [list(x) for x in proj["contents"][base][1] if x[0] in oc.PLANT_KINDS]
             r.shuffle(items)
@@ -92,6 +98,15 @@ def gen_history(r, proj: dict, n_ops: int) -> list:
             fs[ign] = c
         return ops + [["NewLinter"]]
 
+    def flip_candidates():
+        """(path id, item index) of duplicate-able bodies in Python files whose body also occurs in another file"""
+        occ = {}
+        for p in code_files():
+            for k, x in enumerate(proj["contents"][fs[p]][1]):
+                if x[0] in ("B", "BI", "BN"):
+                    occ.setdefault(x[1] % len(oc.PY_BODIES), []).append((p, k))
+        return [(p, k) for lst in occ.values() if len({q for q, _ in lst}) >= 2 for p, k in lst if oc.lang_of(paths[p]) == "py"]
+
     templates = r.random()
     if templates < 0.07:                                   # lint, change the ignore file, new Linter, lint again
         hist += [[r.choice(["ApiDir", "LintDir"]), 0]] + ignore_edit() + [["ApiDir", 0]]
@@ -104,6 +119,13 @@ def gen_history(r, proj: dict, n_ops: int) -> list:
     elif templates < 0.3 and len(code_files()) >= 2:      # single-file call, then a batch elsewhere
         a, b = r.sample(code_files(), 2)
         hist += [[r.choice(["LintFile", "ApiFile"]), a], ["LintFiles", [b]]]
+    elif 0.42 <= templates < 0.5 and flip_candidates():   # an inline suppression comment of a duplicated body is removed / added between two runs
+        p, k = r.choice(flip_candidates())
+        items = [list(x) for x in proj["contents"][fs[p]][1]]
+        items[k][0] = "B" if items[k][0] != "B" else r.choice(["BI", "BN"])
+        proj["contents"].append([paths[p], items])
+        fs[p] = len(proj["contents"]) - 1
+        hist += [[r.choice(["ApiDir", "LintDir"]), 0], ["Edit", p, fs[p]], [r.choice(["ApiDir", "LintDir"]), 0]]
     elif templates < 0.42 and len(code_files()) >= 3:     # the same file list in several orders (every participant first once)
         cf = code_files()
         for k in range(min(3, len(cf))):
